@@ -46,6 +46,7 @@ ASSUMPTIONS = ["numpy fancy indexing semantics", "the sections of one element oc
                "(established by create_pit_branch_entries via np.repeat)"]
 TECHNIQUE = "label-taint on normal forms of per-class hook summaries; order-kind abstract interpretation; offset-domain check on lookup reads"
 EXPLANATION += (' ' + "(R6.11) numpy set operations are order independent unless assume_unique is passed; every call with assume_unique (anything but the literal False) has both arguments unique by construction. No such call exists in the package; the rule analyses a built-in positive example with the same code on every run. (R6.12) a pit-filling hook that takes the row window of ANOTHER component's table (today: Valve.create_pit_branch_entries on the pipe rows) is entered by initialize_pit after all other components (stable sort key on its table name), so the result does not depend on the order of net.component_list, which follows the creation order for sector=Sector.NONE.")
+EXPLANATION += (' ' + '(R6.13) a reference to another element parked in a component array (PressureControlComponent.JUNCTS) is stored as what its readers take it for: a label if they translate it through an index lookup, a pit position if they index the pit with it.')
 
 HOOKS = ("create_pit_node_entries", "create_pit_branch_entries", "adaption_before_derivatives_hydraulic",
          "adaption_after_derivatives_hydraulic", "adaption_before_derivatives_thermal",
